@@ -22,6 +22,29 @@ func Minimise(prop string, v evid.Violation, still func(json.RawMessage) bool) (
 		return still(raw)
 	}
 	changed := false
+	// the prelude (what the worker process read before): drop it whole, else entry by entry
+	if len(c.Prelude) > 0 {
+		n := c
+		n.Prelude = nil
+		if try(n) {
+			log = append(log, fmt.Sprintf("dropped the prelude of %d earlier reads (violation does not depend on process history)", len(c.Prelude)))
+			c = n
+			changed = true
+		} else {
+			for i := 0; i < len(c.Prelude); {
+				n := c
+				n.Prelude = append(append([]Case{}, c.Prelude[:i]...), c.Prelude[i+1:]...)
+				if try(n) {
+					log = append(log, fmt.Sprintf("dropped prelude read %d", i))
+					c = n
+					changed = true
+				} else {
+					i++
+				}
+			}
+			log = append(log, fmt.Sprintf("violation needs %d earlier read(s) in the same process", len(c.Prelude)))
+		}
+	}
 	if c.Reader != "bytes" && c.Reader != "" {
 		if data, ok := modelBytes(&c); ok {
 			n := c
